@@ -10,6 +10,7 @@ Shares of a servermap: <shnum>:<server>:<seq>:<root>:<pre>:<offs>:<g|b> (sorted 
 `vm <k> share…` → `<best verinfo | ->  | <recoverable verinfos, sorted>` (ServerMap.best_recoverable_version);
 `rl <t|f> <k> share…` → `ok:<shnums used>` | `fail` (the Retrieve loop; t = a bad share drops its server, as the code did before /repo 280b4a6);
 `rd <t|f> <k> share… / share…` → `<verinfo>` | `fail` (download_best_version: first survey / complete map).
+`hf <field>` → `signed=<b> verinfo=<b> map=<rejected|same|new>` (`hf names` lists the fields);
 `sc <v|c> <seq>:<root>:<salt>:<datalen>:<offs>:<g|b>…` → e|r per share (map update's signature cache; v = keyed on the whole
 verinfo as the code is, c = on seqnum/root/salt; g = the share's signature verifies for its prefix);
 `ds <c|f>:<verified salt>:<fetched salt>…` → the salt the segment is decrypted with (readers in activation order; c = cached reader) | `-`;
@@ -54,7 +55,20 @@ def insertVer (v : Tahoe.RetrSel.VerInfo) : List Tahoe.RetrSel.VerInfo → List 
   | [] => [v]
   | x :: xs => if v == x then x :: xs else if Tahoe.RetrSel.vlt v x then v :: x :: xs else x :: insertVer v xs
 
+def hfieldName : HField → String
+  | .version => "version" | .seqnum => "seqnum" | .rootHash => "root_hash" | .salt => "salt" | .kN => "kN"
+  | .segsize => "segsize" | .datalen => "datalen" | .offsets => "offsets" | .pubkey => "pubkey" | .signature => "signature"
+  | .shareHashChain => "share_hash_chain" | .blockHashTree => "block_hash_tree" | .shareData => "share_data"
+  | .encPrivkey => "enc_privkey"
+
 def handle : List String → String
+  | ["hf", "names"] => " ".intercalate (HField.all.map hfieldName)
+  | ["hf", name] =>
+    match HField.all.find? (fun f => hfieldName f == name) with
+    | some f =>
+      let o := match mapOutcome f with | .rejected => "rejected" | .sameIdentity => "same" | .newIdentity => "new"
+      s!"signed={signedField f} verinfo={inVerinfo f} map={o}"
+    | none => "bad-op"
   | "vm" :: k :: shares =>
     match k.toNat?, shares.mapM parseShare with
     | some k, some m =>
